@@ -1228,3 +1228,92 @@ def autohandler_case(cfg):
         return out
     finally:
         shutil.rmtree(base, ignore_errors=True)
+
+
+def stamp_probe(env, module_directory):
+    """the real lookup under an environment the deployment may set (reproducible-build variables, time zone, locale): with
+    nothing changing on disk repeated get_template calls return the very same Template object and compile once; a later edit is
+    picked up.  returns (same object?, compilations, content after an edit)"""
+    import os
+    import shutil
+    import tempfile
+    import time
+    from mako.lookup import TemplateLookup
+    from mako import template as TP
+    saved = dict(os.environ)
+    base = tempfile.mkdtemp(prefix="c14env")
+    count = {"n": 0}
+    orig = TP._compile
+
+    def counting(*a, **k):
+        count["n"] += 1
+        return orig(*a, **k)
+    try:
+        now = time.time()
+        vals = {"past": str(int(now - 86400)), "future": str(int(now + 86400)), "nix": "315532800"}
+        for k, v in env.items():
+            os.environ[k] = vals.get(v, v)
+        if "TZ" in env and hasattr(time, "tzset"):
+            time.tzset()
+        fn = os.path.join(base, "t.html")
+        with open(fn, "w") as f:
+            f.write("version 1")
+        os.utime(fn, (now - 60, now - 60))
+        TP._compile = counting
+        lk = TemplateLookup([base], module_directory=os.path.join(base, "mods") if module_directory else None)
+        ts = [lk.get_template("t.html") for _ in range(4)]
+        same = all(t is ts[0] for t in ts)
+        compiled = count["n"]
+        with open(fn, "w") as f:
+            f.write("version 2")
+        os.utime(fn, (now + 30, now + 30))        # whole seconds after the compilation
+        after = lk.get_template("t.html").render()
+        return (same, compiled, after)
+    finally:
+        TP._compile = orig
+        os.environ.clear()
+        os.environ.update(saved)
+        if hasattr(time, "tzset"):
+            time.tzset()
+        shutil.rmtree(base, ignore_errors=True)
+
+
+def cmd_priority_probe(cfg):
+    """mako-render with --template-dir given: an included URI is served from the first configured directory that contains it,
+    and a URI no configured directory contains is an error.  returns (stdout or 'error', expected)"""
+    import io
+    import os
+    import shutil
+    import sys
+    import tempfile
+    from mako import cmd
+    base = tempfile.mkdtemp(prefix="c14cmd")
+    try:
+        dirs = {}
+        for name in ("overrides", "base", "elsewhere"):
+            dirs[name] = os.path.join(base, name)
+            os.makedirs(dirs[name])
+            if cfg["header_in"].get(name):
+                with open(os.path.join(dirs[name], "header.html"), "w") as f:
+                    f.write("header-of-" + name)
+        page = os.path.join(dirs[cfg["page_in"]], "page.html")
+        with open(page, "w") as f:
+            f.write("[<%include file='/header.html'/>]")
+        configured = [d for d in cfg["template_dirs"]]
+        argv = [a for d in configured for a in ("--template-dir", dirs[d])] + [page]
+        saved = sys.stdout, sys.stderr
+        sys.stdout, sys.stderr = out, err = io.StringIO(), io.StringIO()
+        try:
+            try:
+                cmd.cmdline(argv)
+                got = out.getvalue()
+            except SystemExit:
+                got = "error"
+        finally:
+            sys.stdout, sys.stderr = saved
+        search = configured or [cfg["page_in"]]
+        first = [d for d in search if cfg["header_in"].get(d)]
+        want = "[header-of-%s]" % first[0] if first else "error"
+        return (got, want)
+    finally:
+        shutil.rmtree(base, ignore_errors=True)
